@@ -264,7 +264,10 @@ def gen_driver(inv, T, tier):
             continue
         if tnames == ["NumericType"]:
             combos = [{"NumericType": T}]
-        elif "NumericType" in tnames and len(tnames) == 2:
+        elif "NumericType" in tnames and len(tnames) == 2 and re.search(r"Numeric|Number", [t for t in tnames if t != "NumericType"][0]):
+            # a second numeric type (OtherNumericType of the mixed-precision operators).  Any other kind of type parameter
+            # (a unit enumeration of an Internal helper, ...) is NOT guessed: such templates are analysed through the
+            # instantiations their callers request.
             other = [t for t in tnames if t != "NumericType"][0]
             combos = [{"NumericType": T, other: o} for o in NUMERIC]
         elif tnames == ["Enumeration"]:
